@@ -308,3 +308,32 @@ def out_header_values(c):
                                          for p in headers), detail=repr(headers)[:400])
     if status.startswith('200'):
         c.check('header_carries_the_text', dict(headers).get('X-Owner') == HEADER_TEXTS[n], detail=repr(dict(headers).get('X-Owner'))[:80])
+
+
+@obligation('C13.out_header_text', targets=['spyne.protocol.http:_header_to_bytes'],
+            desc="for every text value (symbolic) of a Unicode out-header member the value handed on is that very text (a str), "
+                 "never bytes; an integer member is rendered as its decimal text (str)")
+def out_header_text(c):
+    from pyvc.text import FmtStr
+    from pyvc.sym import SStr
+    from spyne.model.primitive import Integer, Unicode
+    from spyne.protocol.http import HttpRpc, _header_to_bytes
+    prot = HttpRpc()
+    kind = c.choose(['text', 'integer'], 'member_type')
+    if kind == 'text':
+        v = c.str('value')
+        out = c.run(_header_to_bytes, prot, v, Unicode)
+        c.check('returns', out.returned, detail=repr(out))
+        if out.returned:
+            c.check('the_text_itself', (out.value is v) if not c.concrete else (type(out.value) is str and out.value == v),
+                    detail=repr(out.value))
+    else:
+        v = c.int('value')
+        out = c.run(_header_to_bytes, prot, v, Integer)
+        c.check('returns', out.returned, detail=repr(out))
+        if out.returned:
+            if c.concrete:
+                c.check('decimal_text', type(out.value) is str and out.value == str(v), detail=repr(out.value))
+            else:
+                c.check('decimal_text', isinstance(out.value, (str, FmtStr, SStr)) and getattr(out.value, 'pytype', str) is str,
+                        detail=repr(out.value))
